@@ -11,7 +11,7 @@
   Every theorem quantifies over EVERY `argsort` routine satisfying `IsArgsort` (a permutation of
   `range n` that sorts the keys; ties arbitrary) — numpy's unstable introsort included.
 -/
-import FcProofs.Lemmas.LexsortNoFalseFail
+import FcProofs.Lemmas.LexsortRigid
 namespace Fc
 open Fc.C02 Fc.C02.Spec
 
@@ -535,5 +535,54 @@ theorem C02_no_false_fail_noise_free_partial {asS asR : List Int → List Nat} (
   · have := C02_no_false_fail_relabelled_pair_partial hS hR bh hρ0 hρ (idCellMaps_ok f) hκ
       (by rw [hid]; exact hrigid2)
     rwa [hid] at this
+
+/-- **Rigidity without coincident points** (`hrigid` proved for this class).  `Sep` of ALL coordinate
+    columns of `f` as stored (orphans included) and pairwise distinct coordinate key vectors: if
+    `mesh_equal` (any tolerances `t` for which `Sep` holds) accepts two relabellings of `f` as they are
+    stored, the two point orders are the same list — `fuzzy_equal` on the flattened point arrays is,
+    entry by entry, equality of cluster keys (`C02_sep_clusters`). -/
+theorem C02_rigid_without_coincident_points {f : MeshFields} (hwf : f.wf2 = true) {t : MeshTol} {A B M : Nat}
+    (hsep : SepCols t A B M pkey f.mesh.dim (pitems f.mesh))
+    (hdistinct : ∀ a ∈ pitems f.mesh, ∀ b ∈ pitems f.mesh,
+      kvec (KC A f.mesh) f.mesh.dim 0 a = kvec (KC A f.mesh) f.mesh.dim 0 b → a = b)
+    {ρ1 ρ2 : List Nat} {κ1 κ2 : String → List Nat}
+    (hρ1 : ρ1.Perm (List.range f.mesh.points.length)) (hρ2 : ρ2.Perm (List.range f.mesh.points.length))
+    (heq : meshEqual t (relabelF ρ1 κ1 f).mesh (relabelF ρ2 κ2 f).mesh = true) : ρ1 = ρ2 :=
+  rigid_of_distinct (wf2_WFP f hwf) hsep hdistinct hρ1 hρ2 heq
+
+/-- **C02_no_false_fail for data sets without coincident points (noise-free; NO extra assumption).**
+    `baseHyp h f` (well-formed ∧ Sep ∧ Distinguishable of the stripped mesh ∧ hash separates the cells)
+    and `continuousHyp f` (no two stored points coincide) — both decidable, both about the ONE data set
+    `f` — imply: for every point permutation `ρ`, all per-type cell permutations `κ` and every pair of
+    `argsort` routines the default comparator on `(relabel ρ κ f, f)` AND on `(f, relabel ρ κ f)` ends
+    with equal domains and every field `passed`.  (`hcanon`, `hearly0`, `hearly2` of
+    `C02_no_false_fail_partial` are all proved here.) -/
+theorem C02_no_false_fail_continuous {asS asR : List Int → List Nat} (hS : IsArgsort asS) (hR : IsArgsort asR)
+    {h : List Nat → Int} {f : MeshFields} (hb : baseHyp h f = true) (hc : continuousHyp f = true)
+    {ρ : List Nat} {κ : String → List Nat} (hρ : ρ.Perm (List.range f.mesh.points.length)) (hκ : CellMapsOk f κ) :
+    ladderPasses (ladder asS asR h {} (relabelF ρ κ f) f) = true ∧
+    ladderPasses (ladder asS asR h {} f (relabelF ρ κ f)) = true := by
+  have bh := baseHyp_sound hb
+  obtain ⟨hsep, hdist⟩ := continuousHyp_sound hc
+  have hid := relabelF_id bh.wf
+  refine C02_no_false_fail_noise_free_partial hS hR bh hρ hκ ?_ ?_
+  · intro heq
+    exact rigid_of_distinct bh.wf hsep hdist hρ (List.Perm.refl _)
+      (κ2 := idCellMaps f) (by rw [hid]; exact heq)
+  · intro heq
+    exact rigid_of_distinct bh.wf hsep hdist (List.Perm.refl _) hρ
+      (κ1 := idCellMaps f) (by rw [hid]; exact heq)
+
+/-- the same for two relabellings of one data set without coincident points -/
+theorem C02_no_false_fail_continuous_pair {asS asR : List Int → List Nat} (hS : IsArgsort asS)
+    (hR : IsArgsort asR) {h : List Nat → Int} {f : MeshFields} (hb : baseHyp h f = true)
+    (hc : continuousHyp f = true) {ρ1 ρ2 : List Nat} {κ1 κ2 : String → List Nat}
+    (hρ1 : ρ1.Perm (List.range f.mesh.points.length)) (hρ2 : ρ2.Perm (List.range f.mesh.points.length))
+    (hκ1 : CellMapsOk f κ1) (hκ2 : CellMapsOk f κ2) :
+    ladderPasses (ladder asS asR h {} (relabelF ρ1 κ1 f) (relabelF ρ2 κ2 f)) = true := by
+  have bh := baseHyp_sound hb
+  obtain ⟨hsep, hdist⟩ := continuousHyp_sound hc
+  exact C02_no_false_fail_relabelled_pair_partial hS hR bh hρ1 hρ2 hκ1 hκ2
+    (fun heq => rigid_of_distinct bh.wf hsep hdist hρ1 hρ2 heq)
 
 end Fc
